@@ -28,6 +28,7 @@ type tx struct {
 	used    map[string]bool   // local names referenced by the declarations
 	flat    bool              // operator expressions as ONE fluent chain instead of nested operands (every second file)
 	layout  bool              // keep the source's line breaks inside expression lists and after binary operators as Line()
+	idiom   bool              // keyed composite literals as Values(Dict{...}) and struct tags as Tag(map) where that denotes the same program
 	fs      *token.FileSet
 }
 
@@ -162,6 +163,89 @@ func (t *tx) lit(b *ast.BasicLit) *Node {
 	panic("lit")
 }
 
+// dictOf: a keyed composite literal whose keys are plain identifiers or literals, distinct and already in the order of
+// their text, is the literal that Values(Dict{...}) renders (a Dict orders its pairs by the rendered key): the idiomatic
+// way to write it with the DSL.  nil when the literal is not of that shape (or the option is off).
+func (t *tx) dictOf(e *ast.CompositeLit) *Node {
+	if !t.idiom || len(e.Elts) == 0 {
+		return nil
+	}
+	texts := []string{}
+	d := &Node{K: "dict"}
+	for i, el := range e.Elts {
+		kv, ok := el.(*ast.KeyValueExpr)
+		if !ok {
+			return nil
+		}
+		text := ""
+		switch k := kv.Key.(type) {
+		case *ast.Ident:
+			if _, imported := t.imports[k.Name]; imported {
+				return nil
+			}
+			text = k.Name
+		case *ast.BasicLit:
+			switch k.Kind {
+			case token.STRING:
+				v, err := strconv.Unquote(k.Value)
+				if err != nil || strconv.Quote(v) != k.Value {
+					return nil
+				}
+			case token.INT:
+				if n, err := strconv.Atoi(k.Value); err != nil || strconv.Itoa(n) != k.Value {
+					return nil
+				}
+			default:
+				return nil
+			}
+			text = k.Value
+		default:
+			return nil
+		}
+		texts = append(texts, text)
+		d.Items = append(d.Items, &Node{K: "pair", Items: []*Node{t.expr(kv.Key), t.expr(kv.Value)}})
+		d.Order = append(d.Order, i+1)
+	}
+	for i := 1; i < len(texts); i++ {
+		if texts[i-1] >= texts[i] {
+			return nil
+		}
+	}
+	return d
+}
+
+// tagOf: a struct tag of the conventional form whose keys are sorted is the literal that Tag(map) renders
+func (t *tx) tagOf(b *ast.BasicLit) *Node {
+	if !t.idiom || b.Kind != token.STRING {
+		return nil
+	}
+	val, err := strconv.Unquote(b.Value)
+	if err != nil || val == "" {
+		return nil
+	}
+	keys := tagKeys(val)
+	m := map[string]string{}
+	canon := ""
+	for i, k := range keys {
+		v, ok := reflect.StructTag(val).Lookup(k)
+		if !ok {
+			return nil
+		}
+		if _, dup := m[k]; dup || (i > 0 && keys[i-1] >= k) {
+			return nil
+		}
+		m[k] = v
+		if i > 0 {
+			canon += " "
+		}
+		canon += k + ":" + strconv.Quote(v)
+	}
+	if len(keys) == 0 || canon != val {
+		return nil
+	}
+	return tagNode(m)
+}
+
 func (t *tx) fields(fl *ast.FieldList) []*Node {
 	out := []*Node{}
 	if fl == nil {
@@ -182,7 +266,11 @@ func (t *tx) fields(fl *ast.FieldList) []*Node {
 			s.Items = append(s.Items, t.expr(f.Type))
 		}
 		if f.Tag != nil {
-			s.Items = append(s.Items, t.lit(f.Tag))
+			if tn := t.tagOf(f.Tag); tn != nil {
+				s.Items = append(s.Items, tn)
+			} else {
+				s.Items = append(s.Items, t.lit(f.Tag))
+			}
 		}
 		out = append(out, s)
 	}
@@ -277,6 +365,10 @@ func (t *tx) expr(e ast.Expr) *Node {
 		s := stm()
 		if e.Type != nil {
 			s.Items = append(s.Items, t.expr(e.Type))
+		}
+		if d := t.dictOf(e); d != nil {
+			s.Items = append(s.Items, grp("values", d))
+			return s
 		}
 		s.Items = append(s.Items, grp("values", t.exprsAt(e.Elts, e.Lbrace)...))
 		return s
@@ -641,10 +733,11 @@ func TranslateFile(fn string, src []byte) (h []Action, info *SourceInfo, err err
 	return TranslateFileMode(fn, src, -1)
 }
 
-// mode: bit 0 = operator expressions as one fluent chain, bit 1 = the source's line breaks kept as Line(); -1: chosen per file
+// mode: bit 0 = operator expressions as one fluent chain, bit 1 = the source's line breaks kept as Line(), bit 2 = keyed
+// literals as Dict and struct tags as Tag(map) where they denote the same; -1: chosen per file
 func TranslateFileMode(fn string, src []byte, mode int) (h []Action, info *SourceInfo, err error) {
 	if mode < 0 {
-		mode = len(src) % 4
+		mode = len(src) % 8
 	}
 	fs := token.NewFileSet()
 	af, perr := parser.ParseFile(fs, fn, src, parser.ParseComments)
@@ -652,7 +745,7 @@ func TranslateFileMode(fn string, src []byte, mode int) (h []Action, info *Sourc
 		return nil, &SourceInfo{Skip: "does not parse"}, nil
 	}
 	info = &SourceInfo{Pkg: af.Name.Name, Imports: map[impSpec]bool{}}
-	t := &tx{imports: map[string]string{}, used: map[string]bool{}, flat: mode&1 == 1, layout: mode&2 == 2, fs: fs}
+	t := &tx{imports: map[string]string{}, used: map[string]bool{}, flat: mode&1 == 1, layout: mode&2 == 2, idiom: mode&4 == 4, fs: fs}
 	a := Action{A: "New", Name: af.Name.Name}
 	h = []Action{a}
 	seenPath := map[string]string{}
@@ -912,11 +1005,11 @@ func cmdCorpus(args []string) {
 		} else if args[2] != "" && strings.HasPrefix(fn, args[2]) {
 			rel = "corpus" + fn[len(args[2]):]
 		}
-		// the vendored corpus is translated in all four ways (nested / fluent operands x layout dropped / kept), every
+		// the vendored corpus is translated in all eight ways (nested / fluent operands x layout dropped / kept x literal / Dict and Tag), every
 		// other file in the way its length selects
 		modes := []int{-1}
 		if strings.HasPrefix(rel, "corpus") {
-			modes = []int{0, 1, 2, 3}
+			modes = []int{0, 1, 2, 3, 4, 5, 6, 7}
 		}
 		for _, mode := range modes {
 			func() {
